@@ -29,8 +29,8 @@ import (
 )
 
 func init() {
-	evals["auth"] = evalAuth
-	gens["C08"] = genC08
+	evals["auth"] = c08EvalAuth
+	gens["C08"] = c08Gen
 }
 
 // ---- certificates of the catalogue ------------------------------------------------------------------------
@@ -82,35 +82,35 @@ func c08pki() (*gmPKI, *gmPKI, *c08Certs) {
 	return m, o, &c08c
 }
 
-func withKey(der []byte, keyID int) gmtls.Certificate {
+func c08WithKey(der []byte, keyID int) gmtls.Certificate {
 	return gmtls.Certificate{Certificate: [][]byte{der}, PrivateKey: keyFor(keyID)}
 }
 
 // ---- handshake messages --------------------------------------------------------------------------------------
 
 const (
-	hsClientHello        = 1
-	hsServerHello        = 2
-	hsCertificate        = 11
-	hsServerKeyExchange  = 12
-	hsCertificateRequest = 13
-	hsServerHelloDone    = 14
-	hsCertificateVerify  = 15
-	hsClientKeyExchange  = 16
+	c08HsClientHello        = 1
+	c08HsServerHello        = 2
+	c08HsCertificate        = 11
+	c08HsServerKeyExchange  = 12
+	c08HsCertificateRequest = 13
+	c08HsServerHelloDone    = 14
+	c08HsCertificateVerify  = 15
+	c08HsClientKeyExchange  = 16
 )
 
-type hsm struct {
+type c08Msg struct {
 	typ  byte
 	body []byte
 }
 
-func (m hsm) bytes() []byte {
+func (m c08Msg) bytes() []byte {
 	n := len(m.body)
 	return append([]byte{m.typ, byte(n >> 16), byte(n >> 8), byte(n)}, m.body...)
 }
 
-func parseHS(b []byte) ([]hsm, bool) {
-	var out []hsm
+func c08ParseHS(b []byte) ([]c08Msg, bool) {
+	var out []c08Msg
 	for len(b) > 0 {
 		if len(b) < 4 {
 			return nil, false
@@ -119,13 +119,13 @@ func parseHS(b []byte) ([]hsm, bool) {
 		if len(b) < 4+n {
 			return nil, false
 		}
-		out = append(out, hsm{b[0], append([]byte{}, b[4:4+n]...)})
+		out = append(out, c08Msg{b[0], append([]byte{}, b[4:4+n]...)})
 		b = b[4+n:]
 	}
 	return out, true
 }
 
-type helloFields struct {
+type c08Hello struct {
 	vers    uint16
 	random  []byte
 	sid     []byte
@@ -135,7 +135,7 @@ type helloFields struct {
 	hasExts bool
 }
 
-func parseHello(body []byte, server bool) (f helloFields, ok bool) {
+func c08ParseHello(body []byte, server bool) (f c08Hello, ok bool) {
 	if len(body) < 35 {
 		return f, false
 	}
@@ -178,7 +178,7 @@ func parseHello(body []byte, server bool) (f helloFields, ok bool) {
 	return f, true
 }
 
-func (f helloFields) marshal(server bool) []byte {
+func (f c08Hello) marshal(server bool) []byte {
 	b := []byte{byte(f.vers >> 8), byte(f.vers)}
 	b = append(b, f.random...)
 	b = append(b, byte(len(f.sid)))
@@ -199,7 +199,7 @@ func (f helloFields) marshal(server bool) []byte {
 	return b
 }
 
-func parseCertMsg(body []byte) ([][]byte, bool) {
+func c08ParseCertMsg(body []byte) ([][]byte, bool) {
 	if len(body) < 3 {
 		return nil, false
 	}
@@ -223,7 +223,7 @@ func parseCertMsg(body []byte) ([][]byte, bool) {
 	return out, true
 }
 
-func certMsgBody(certs [][]byte) []byte {
+func c08CertMsgBody(certs [][]byte) []byte {
 	var inner []byte
 	for _, c := range certs {
 		inner = append(inner, byte(len(c)>>16), byte(len(c)>>8), byte(len(c)))
@@ -232,44 +232,44 @@ func certMsgBody(certs [][]byte) []byte {
 	return append([]byte{byte(len(inner) >> 16), byte(len(inner) >> 8), byte(len(inner))}, inner...)
 }
 
-func lenPrefixed16(b []byte) []byte { return append([]byte{byte(len(b) >> 8), byte(len(b))}, b...) }
+func c08LenPrefixed16(b []byte) []byte { return append([]byte{byte(len(b) >> 8), byte(len(b))}, b...) }
 
 // ---- the man in the middle at handshake-message level --------------------------------------------------------------
 
-// authMitm sees every plaintext handshake message (before ChangeCipherSpec in its direction), remembers what it
+// c08MitmState sees every plaintext handshake message (before ChangeCipherSpec in its direction), remembers what it
 // saw, and may replace a message by any number of messages; after ChangeCipherSpec it sees whole records.
-type authMitm struct {
+type c08MitmState struct {
 	mu      sync.Mutex
 	ccs     map[string]bool
-	n       map[string]int   // plaintext handshake messages seen per direction
-	nenc    map[string]int   // protected records seen per direction
-	msgs    map[string][]hsm // originals, per direction
-	fwd     map[string][]hsm // what was forwarded instead
-	rewrite func(a *authMitm, dir string, idx int, m hsm) []hsm
+	n       map[string]int      // plaintext handshake messages seen per direction
+	nenc    map[string]int      // protected records seen per direction
+	msgs    map[string][]c08Msg // originals, per direction
+	fwd     map[string][]c08Msg // what was forwarded instead
+	rewrite func(a *c08MitmState, dir string, idx int, m c08Msg) []c08Msg
 	ccsDrop func(dir string) bool
 	encrw   func(dir string, idx int, r record) []record
 	changed bool // something was actually altered
 	plain   bool // … in a plaintext handshake message
 }
 
-func newAuthMitm() *authMitm {
-	return &authMitm{ccs: map[string]bool{}, n: map[string]int{}, nenc: map[string]int{}, msgs: map[string][]hsm{}, fwd: map[string][]hsm{}}
+func c08NewMitm() *c08MitmState {
+	return &c08MitmState{ccs: map[string]bool{}, n: map[string]int{}, nenc: map[string]int{}, msgs: map[string][]c08Msg{}, fwd: map[string][]c08Msg{}}
 }
 
 // binding reports whether the plaintext handshake messages that both ends hash before the client's Finished were
 // altered: anything client to server, and server to client everything up to and including ServerHelloDone (what
 // follows it reaches the client only after it has sent its Finished).
-func (a *authMitm) binding() bool {
+func (a *c08MitmState) binding() bool {
 	a.mu.Lock()
 	defer a.mu.Unlock()
 	if a.plain {
 		return true
 	}
-	flat := func(ms []hsm, cut bool) []byte {
+	flat := func(ms []c08Msg, cut bool) []byte {
 		var b []byte
 		for _, m := range ms {
 			b = append(b, m.bytes()...)
-			if cut && m.typ == hsServerHelloDone {
+			if cut && m.typ == c08HsServerHelloDone {
 				break
 			}
 		}
@@ -279,16 +279,16 @@ func (a *authMitm) binding() bool {
 		!bytes.Equal(flat(a.msgs["s2c"], true), flat(a.fwd["s2c"], true))
 }
 
-func (a *authMitm) find(dir string, typ byte) (hsm, bool) {
+func (a *c08MitmState) find(dir string, typ byte) (c08Msg, bool) {
 	for _, m := range a.msgs[dir] {
 		if m.typ == typ {
 			return m, true
 		}
 	}
-	return hsm{}, false
+	return c08Msg{}, false
 }
 
-func (a *authMitm) f(dir string, _ int, r record) ([]record, bool) {
+func (a *c08MitmState) f(dir string, _ int, r record) ([]record, bool) {
 	a.mu.Lock()
 	defer a.mu.Unlock()
 	switch {
@@ -311,7 +311,7 @@ func (a *authMitm) f(dir string, _ int, r record) ([]record, bool) {
 		}
 		return []record{r}, false
 	case r.typ == recHandshake:
-		ms, ok := parseHS(r.body)
+		ms, ok := c08ParseHS(r.body)
 		if !ok {
 			return []record{r}, false // fragmented message: not produced by the library for these sizes
 		}
@@ -320,7 +320,7 @@ func (a *authMitm) f(dir string, _ int, r record) ([]record, bool) {
 			idx := a.n[dir]
 			a.n[dir]++
 			a.msgs[dir] = append(a.msgs[dir], m)
-			repl := []hsm{m}
+			repl := []c08Msg{m}
 			if a.rewrite != nil {
 				repl = a.rewrite(a, dir, idx, m)
 				if len(repl) != 1 || repl[0].typ != m.typ || !bytes.Equal(repl[0].body, m.body) {
@@ -341,11 +341,11 @@ func (a *authMitm) f(dir string, _ int, r record) ([]record, bool) {
 
 const c08Stall = 4 * time.Second
 
-// runAuth is runPair for this property: a failed end closes its connection (so the peer sees the end of the
+// c08Run is runPair for this property: a failed end closes its connection (so the peer sees the end of the
 // stream), and when neither end has finished after c08Stall — both wait for bytes that will never come, which
 // is what dropping a message or enlarging a length field leads to — all streams are ended; an end that returns
 // then was waiting for input (reported as stalled, an abort), one that still does not return is hung.
-func runAuth(ccfg, scfg *gmtls.Config, mitm mitmFunc) (res pairResult, cStalled, sStalled bool) {
+func c08Run(ccfg, scfg *gmtls.Config, mitm mitmFunc, evil ...c08Evil) (res pairResult, cStalled, sStalled bool) {
 	cEnd, mC := bufPipe()
 	mS, sEnd := bufPipe()
 	var rw sync.WaitGroup
@@ -356,13 +356,31 @@ func runAuth(ccfg, scfg *gmtls.Config, mitm mitmFunc) (res pairResult, cStalled,
 	server := gmtls.Server(sEnd, scfg)
 	var cr, sr endResult
 	cd, sd := make(chan struct{}), make(chan struct{})
-	start := func(conn *gmtls.Conn, out *endResult, ch chan struct{}) {
-		var wg sync.WaitGroup
-		wg.Add(1)
-		go func() { hsEnd(conn, out, &wg); close(ch) }()
+	start := func(conn *gmtls.Conn, hs func() error, out *endResult, ch chan struct{}) {
+		go func() {
+			defer close(ch)
+			defer func() {
+				if e := recover(); e != nil {
+					out.panicked = fmt.Sprint(e)
+				}
+			}()
+			out.err = hs()
+			if out.err == nil {
+				out.done = true
+				out.state = conn.ConnectionState()
+				out.ekm, _ = out.state.ExportKeyingMaterial("verif label", []byte("ctx"), 32)
+			}
+		}()
 	}
-	start(client, &cr, cd)
-	start(server, &sr, sd)
+	chs, shs := client.Handshake, server.Handshake
+	if len(evil) > 0 && evil[0].server != nil {
+		shs = func() error { return server.VerifEvilServerHandshake(*evil[0].server) }
+	}
+	if len(evil) > 0 && evil[0].clientFinXor != nil {
+		chs = func() error { return client.VerifEvilClientHandshake(evil[0].clientFinXor) }
+	}
+	start(client, chs, &cr, cd)
+	start(server, shs, &sr, sd)
 	teardown := func() { cEnd.Close(); sEnd.Close(); mC.Close(); mS.Close() }
 	stall := time.NewTimer(c08Stall)
 	defer stall.Stop()
@@ -412,14 +430,20 @@ func runAuth(ccfg, scfg *gmtls.Config, mitm mitmFunc) (res pairResult, cStalled,
 	return
 }
 
-// hookSigner is a scripted private key: the malicious end decides what its "signature" is
-type hookSigner struct {
+// c08Evil replaces an end by the scripted malicious peer of gmtls/export_verif_c08.go
+type c08Evil struct {
+	server       *gmtls.VerifEvilServer
+	clientFinXor []byte
+}
+
+// c08HookSigner is a scripted private key: the malicious end decides what its "signature" is
+type c08HookSigner struct {
 	pub crypto.PublicKey
 	f   func(tbs []byte) ([]byte, error)
 }
 
-func (s hookSigner) Public() crypto.PublicKey { return s.pub }
-func (s hookSigner) Sign(_ io.Reader, tbs []byte, _ crypto.SignerOpts) ([]byte, error) {
+func (s c08HookSigner) Public() crypto.PublicKey { return s.pub }
+func (s c08HookSigner) Sign(_ io.Reader, tbs []byte, _ crypto.SignerOpts) ([]byte, error) {
 	return s.f(tbs)
 }
 
@@ -428,14 +452,14 @@ func (s hookSigner) Sign(_ io.Reader, tbs []byte, _ crypto.SignerOpts) ([]byte, 
 var c08Policies = map[string]gmtls.ClientAuthType{"none": gmtls.NoClientCert, "request": gmtls.RequestClientCert,
 	"requireany": gmtls.RequireAnyClientCert, "verifyifgiven": gmtls.VerifyClientCertIfGiven, "requireverify": gmtls.RequireAndVerifyClientCert}
 
-type authSetup struct {
+type c08Setup struct {
 	suite, other uint16
 	ccfg, scfg   *gmtls.Config
 	sentClient   [][]byte // the chain the client presents when asked
 	serverCerts  [][]byte
 }
 
-func flipAt(b []byte, pos int, mask byte) []byte {
+func c08FlipAt(b []byte, pos int, mask byte) []byte {
 	out := append([]byte{}, b...)
 	if len(out) == 0 {
 		return out
@@ -447,7 +471,7 @@ func flipAt(b []byte, pos int, mask byte) []byte {
 	return out
 }
 
-func sm2Sign(keyID int, msg []byte) []byte {
+func c08Sign(keyID int, msg []byte) []byte {
 	sig, err := keyFor(keyID).Sign(rand.Reader, msg, nil)
 	if err != nil {
 		panic(err)
@@ -456,7 +480,7 @@ func sm2Sign(keyID int, msg []byte) []byte {
 }
 
 // the bytes a GM ECC ServerKeyExchange signature covers
-func skeInput(cr, sr, encCert []byte, lenPrefix bool) []byte {
+func c08SkeInput(cr, sr, encCert []byte, lenPrefix bool) []byte {
 	b := append(append([]byte{}, cr...), sr...)
 	if lenPrefix {
 		b = append(b, byte(len(encCert)>>16), byte(len(encCert)>>8), byte(len(encCert)))
@@ -464,12 +488,12 @@ func skeInput(cr, sr, encCert []byte, lenPrefix bool) []byte {
 	return append(b, encCert...)
 }
 
-func evalAuth(args []string) string {
+func c08EvalAuth(args []string) string {
 	if len(args) < 5 {
 		return "bad-op"
 	}
 	m, o, x := c08pki()
-	var st authSetup
+	var st c08Setup
 	switch args[0] {
 	case "e013":
 		st.suite, st.other = gmtls.GMTLS_ECC_SM4_CBC_SM3, gmtls.GMTLS_ECC_SM4_GCM_SM3
@@ -519,7 +543,7 @@ func evalAuth(args []string) string {
 	case "wrongeku":
 		cc = &x.cEku
 	case "wrongkey":
-		c := withKey(m.client.Certificate[0], 2950)
+		c := c08WithKey(m.client.Certificate[0], 2950)
 		cc = &c
 	default:
 		return "bad-op"
@@ -541,17 +565,25 @@ func evalAuth(args []string) string {
 	st.scfg.ClientCAs = m.pool
 	sc := func(a, b gmtls.Certificate) { st.scfg.Certificates = []gmtls.Certificate{a, b} }
 	exact := true
-	am := newAuthMitm()
-	var capture *authMitm // another session of the same two parties, run first
+	am := c08NewMitm()
+	var capture *c08MitmState // another session of the same two parties, run first
 	needCapture := false
 	var pre, post func() string // run before / after the connection under test; a non-empty result is the op's result
+	var evil c08Evil
+	firstOnly := func(n int) []byte { // a verify_data mask that leaves the first n bytes right
+		x := bytes.Repeat([]byte{0x5a}, 12)
+		for i := 0; i < n && i < len(x); i++ {
+			x[i] = 0
+		}
+		return x
+	}
 
 	switch attack {
 	case "honest":
 	case "s-signkey-wrong":
-		sc(withKey(m.sign.Certificate[0], 2950), m.enc)
+		sc(c08WithKey(m.sign.Certificate[0], 2950), m.enc)
 	case "s-enckey-wrong":
-		sc(m.sign, withKey(m.enc.Certificate[0], 2951))
+		sc(m.sign, c08WithKey(m.enc.Certificate[0], 2951))
 	case "s-untrusted":
 		sc(o.sign, o.enc)
 	case "s-untrusted-sign":
@@ -571,13 +603,13 @@ func evalAuth(args []string) string {
 	case "s-wrongname-enc":
 		sc(m.sign, x.nameEnc)
 	case "s-rsa-sign":
-		sc(withKey(x.rsa, 2001), m.enc)
+		sc(c08WithKey(x.rsa, 2001), m.enc)
 	case "s-rsa-enc":
-		sc(m.sign, withKey(x.rsa, 2002))
+		sc(m.sign, c08WithKey(x.rsa, 2002))
 	case "s-p256-sign":
-		sc(withKey(x.p256, 2001), m.enc)
+		sc(c08WithKey(x.p256, 2001), m.enc)
 	case "s-p256-enc":
-		sc(m.sign, withKey(x.p256, 2002))
+		sc(m.sign, c08WithKey(x.p256, 2002))
 	case "s-swapped":
 		sc(m.enc, m.sign)
 	case "s-noku-sign":
@@ -591,11 +623,27 @@ func evalAuth(args []string) string {
 	case "s-dual":
 		sc(x.dual, x.dual)
 
+	// scripted peers that keep a consistent transcript: a server that never sends ServerKeyExchange, a server /
+	// client whose Finished is right in its first byte(s) only, or wrong in its last bit only
+	case "s-ske-omitted":
+		evil.server = &gmtls.VerifEvilServer{OmitServerKeyExchange: true}
+	case "s-fin-firstbyte":
+		evil.server = &gmtls.VerifEvilServer{FinishedXor: firstOnly(1)}
+	case "s-fin-first11":
+		evil.server = &gmtls.VerifEvilServer{FinishedXor: firstOnly(11)}
+	case "s-fin-lastbit":
+		evil.server = &gmtls.VerifEvilServer{FinishedXor: []byte{0, 0, 0, 0, 0, 0, 0, 0, 0, 0, 0, 1}}
+	case "c-fin-firstbyte":
+		evil.clientFinXor = firstOnly(1)
+	case "c-fin-first11":
+		evil.clientFinXor = firstOnly(11)
+	case "c-fin-lastbit":
+		evil.clientFinXor = []byte{0, 0, 0, 0, 0, 0, 0, 0, 0, 0, 0, 1}
 	// a malicious server that holds the signing key but signs something else than this session's randoms and
 	// encryption certificate (or signs with another key): a real gmtls server whose "private key" is scripted
 	case "ske-otherrandoms", "ske-otherclientrandom", "ske-otherserverrandom", "ske-swaprandoms", "ske-othercert", "ske-nolen",
 		"ske-by-enckey", "ske-by-otherkey", "ske-empty":
-		st.scfg.Certificates[0] = gmtls.Certificate{Certificate: m.sign.Certificate, PrivateKey: hookSigner{&keyFor(2001).PublicKey, func(tbs []byte) ([]byte, error) {
+		st.scfg.Certificates[0] = gmtls.Certificate{Certificate: m.sign.Certificate, PrivateKey: c08HookSigner{&keyFor(2001).PublicKey, func(tbs []byte) ([]byte, error) {
 			if len(tbs) < 67 {
 				return nil, fmt.Errorf("unexpected input to the key-exchange signature")
 			}
@@ -621,29 +669,29 @@ func evalAuth(args []string) string {
 			case "ske-empty":
 				return []byte{}, nil
 			}
-			return sm2Sign(key, skeInput(cr, sr, ec, lp)), nil
+			return c08Sign(key, c08SkeInput(cr, sr, ec, lp)), nil
 		}}}
 	// … or replays the signature it made in another session in which it used the same server random
 	case "ske-replay":
 		var recorded, sr1, sr2 []byte
 		first := st.scfg.Clone()
 		first.Rand = newRng(4242)
-		first.Certificates = []gmtls.Certificate{{Certificate: m.sign.Certificate, PrivateKey: hookSigner{&keyFor(2001).PublicKey, func(tbs []byte) ([]byte, error) {
-			recorded = sm2Sign(2001, tbs)
+		first.Certificates = []gmtls.Certificate{{Certificate: m.sign.Certificate, PrivateKey: c08HookSigner{&keyFor(2001).PublicKey, func(tbs []byte) ([]byte, error) {
+			recorded = c08Sign(2001, tbs)
 			if len(tbs) >= 64 {
 				sr1 = append([]byte{}, tbs[32:64]...)
 			}
 			return recorded, nil
 		}}}, m.enc}
 		pre = func() string {
-			runAuth(st.ccfg, first, nil)
+			c08Run(st.ccfg, first, nil)
 			if recorded == nil {
 				return "bad-op:nothing-captured"
 			}
 			return ""
 		}
 		st.scfg.Rand = newRng(4242)
-		st.scfg.Certificates[0] = gmtls.Certificate{Certificate: m.sign.Certificate, PrivateKey: hookSigner{&keyFor(2001).PublicKey, func(tbs []byte) ([]byte, error) {
+		st.scfg.Certificates[0] = gmtls.Certificate{Certificate: m.sign.Certificate, PrivateKey: c08HookSigner{&keyFor(2001).PublicKey, func(tbs []byte) ([]byte, error) {
 			if len(tbs) >= 64 {
 				sr2 = append([]byte{}, tbs[32:64]...)
 			}
@@ -665,19 +713,19 @@ func evalAuth(args []string) string {
 			cc = &forged
 			if attack == "cv-replay" {
 				rec := forged
-				rec.PrivateKey = hookSigner{&base.PublicKey, func(tbs []byte) ([]byte, error) {
+				rec.PrivateKey = c08HookSigner{&base.PublicKey, func(tbs []byte) ([]byte, error) {
 					sig, err := base.Sign(rand.Reader, tbs, nil)
 					recorded = sig
 					return sig, err
 				}}
 				firstC := st.ccfg.Clone()
 				firstC.GetClientCertificate = func(*gmtls.CertificateRequestInfo) (*gmtls.Certificate, error) { return &rec, nil }
-				pre = func() string { runAuth(firstC, st.scfg, nil); return "" }
+				pre = func() string { c08Run(firstC, st.scfg, nil); return "" }
 			}
-			forged.PrivateKey = hookSigner{&base.PublicKey, func(tbs []byte) ([]byte, error) {
+			forged.PrivateKey = c08HookSigner{&base.PublicKey, func(tbs []byte) ([]byte, error) {
 				switch attack {
 				case "cv-otherdigest":
-					return base.Sign(rand.Reader, flipAt(tbs, 5, 1), nil)
+					return base.Sign(rand.Reader, c08FlipAt(tbs, 5, 1), nil)
 				case "cv-empty":
 					return []byte{}, nil
 				}
@@ -689,9 +737,9 @@ func evalAuth(args []string) string {
 		}
 	// a man in the middle that substitutes its own pre-master secret, encrypted to the server's key
 	case "cke-forge":
-		am.rewrite = func(a *authMitm, dir string, idx int, msg hsm) []hsm {
-			if dir != "c2s" || msg.typ != hsClientKeyExchange {
-				return []hsm{msg}
+		am.rewrite = func(a *c08MitmState, dir string, idx int, msg c08Msg) []c08Msg {
+			if dir != "c2s" || msg.typ != c08HsClientKeyExchange {
+				return []c08Msg{msg}
 			}
 			pms := append([]byte{1, 1}, newRng(85).bytes(46)...)
 			ct, err := sm2.Encrypt(&keyFor(2002).PublicKey, pms, rand.Reader, sm2.C1C3C2)
@@ -702,70 +750,70 @@ func evalAuth(args []string) string {
 			if err != nil {
 				panic(err)
 			}
-			return []hsm{{hsClientKeyExchange, lenPrefixed16(ct)}}
+			return []c08Msg{{c08HsClientKeyExchange, c08LenPrefixed16(ct)}}
 		}
 	default:
 		if !strings.HasPrefix(attack, "mitm-") {
 			return "bad-op"
 		}
 		exact = false
-		onMsg := func(dir string, typ byte, f func(a *authMitm, msg hsm) []hsm) {
-			am.rewrite = func(a *authMitm, d string, idx int, msg hsm) []hsm {
+		onMsg := func(dir string, typ byte, f func(a *c08MitmState, msg c08Msg) []c08Msg) {
+			am.rewrite = func(a *c08MitmState, d string, idx int, msg c08Msg) []c08Msg {
 				if d == dir && msg.typ == typ {
 					// the client's Certificate and the server's have the same type: tell them apart by direction
 					return f(a, msg)
 				}
-				return []hsm{msg}
+				return []c08Msg{msg}
 			}
 		}
-		hello := func(dir string, server bool, f func(h *helloFields)) {
-			typ := byte(hsClientHello)
+		hello := func(dir string, server bool, f func(h *c08Hello)) {
+			typ := byte(c08HsClientHello)
 			if server {
-				typ = hsServerHello
+				typ = c08HsServerHello
 			}
-			onMsg(dir, typ, func(a *authMitm, msg hsm) []hsm {
-				h, ok := parseHello(msg.body, server)
+			onMsg(dir, typ, func(a *c08MitmState, msg c08Msg) []c08Msg {
+				h, ok := c08ParseHello(msg.body, server)
 				if !ok {
-					return []hsm{msg}
+					return []c08Msg{msg}
 				}
 				f(&h)
-				return []hsm{{msg.typ, h.marshal(server)}}
+				return []c08Msg{{msg.typ, h.marshal(server)}}
 			})
 		}
 		u16 := func(v uint16) []byte { return []byte{byte(v >> 8), byte(v)} }
-		addExt := func(h *helloFields) { h.hasExts = true; h.exts = append(h.exts, 0xff, 0x77, 0, 0) }
+		addExt := func(h *c08Hello) { h.hasExts = true; h.exts = append(h.exts, 0xff, 0x77, 0, 0) }
 		replay := func(dir string, typ byte) {
 			needCapture = true
-			onMsg(dir, typ, func(a *authMitm, msg hsm) []hsm {
+			onMsg(dir, typ, func(a *c08MitmState, msg c08Msg) []c08Msg {
 				if old, ok := capture.find(dir, typ); ok {
-					return []hsm{old}
+					return []c08Msg{old}
 				}
-				return []hsm{msg}
+				return []c08Msg{msg}
 			})
 		}
 		switch attack {
 		case "mitm-ch-version":
-			hello("c2s", false, func(h *helloFields) { h.vers = 0x0303 })
+			hello("c2s", false, func(h *c08Hello) { h.vers = 0x0303 })
 		case "mitm-ch-version-low":
-			hello("c2s", false, func(h *helloFields) { h.vers = 0x0100 })
+			hello("c2s", false, func(h *c08Hello) { h.vers = 0x0100 })
 		case "mitm-ch-random":
-			hello("c2s", false, func(h *helloFields) { h.random = flipAt(h.random, par(0), 1) })
+			hello("c2s", false, func(h *c08Hello) { h.random = c08FlipAt(h.random, par(0), 1) })
 		case "mitm-ch-sessionid":
-			hello("c2s", false, func(h *helloFields) { h.sid = newRng(86).bytes(16) })
+			hello("c2s", false, func(h *c08Hello) { h.sid = newRng(86).bytes(16) })
 		case "mitm-ch-suites-other":
-			hello("c2s", false, func(h *helloFields) { h.suites = u16(st.other) })
+			hello("c2s", false, func(h *c08Hello) { h.suites = u16(st.other) })
 		case "mitm-ch-suites-reorder":
-			hello("c2s", false, func(h *helloFields) { h.suites = append(u16(st.other), u16(st.suite)...) })
+			hello("c2s", false, func(h *c08Hello) { h.suites = append(u16(st.other), u16(st.suite)...) })
 		case "mitm-ch-suites-append":
-			hello("c2s", false, func(h *helloFields) { h.suites = append(h.suites, 0x00, 0xff) })
+			hello("c2s", false, func(h *c08Hello) { h.suites = append(h.suites, 0x00, 0xff) })
 		case "mitm-ch-compression":
-			hello("c2s", false, func(h *helloFields) { h.comps = []byte{1, 0} })
+			hello("c2s", false, func(h *c08Hello) { h.comps = []byte{1, 0} })
 		case "mitm-ch-compression-only":
-			hello("c2s", false, func(h *helloFields) { h.comps = []byte{1} })
+			hello("c2s", false, func(h *c08Hello) { h.comps = []byte{1} })
 		case "mitm-ch-ext-strip":
-			hello("c2s", false, func(h *helloFields) { h.hasExts, h.exts = false, nil })
+			hello("c2s", false, func(h *c08Hello) { h.hasExts, h.exts = false, nil })
 		case "mitm-ch-ext-sni":
-			hello("c2s", false, func(h *helloFields) {
+			hello("c2s", false, func(h *c08Hello) {
 				if len(h.exts) > 0 {
 					h.exts[len(h.exts)-1] ^= 1
 				}
@@ -773,26 +821,26 @@ func evalAuth(args []string) string {
 		case "mitm-ch-ext-add":
 			hello("c2s", false, addExt)
 		case "mitm-sh-version":
-			hello("s2c", true, func(h *helloFields) { h.vers = 0x0303 })
+			hello("s2c", true, func(h *c08Hello) { h.vers = 0x0303 })
 		case "mitm-sh-version-low":
-			hello("s2c", true, func(h *helloFields) { h.vers = 0x0100 })
+			hello("s2c", true, func(h *c08Hello) { h.vers = 0x0100 })
 		case "mitm-sh-random":
-			hello("s2c", true, func(h *helloFields) { h.random = flipAt(h.random, par(0), 1) })
+			hello("s2c", true, func(h *c08Hello) { h.random = c08FlipAt(h.random, par(0), 1) })
 		case "mitm-sh-sessionid":
-			hello("s2c", true, func(h *helloFields) { h.sid = newRng(87).bytes(32) })
+			hello("s2c", true, func(h *c08Hello) { h.sid = newRng(87).bytes(32) })
 		case "mitm-sh-suite":
-			hello("s2c", true, func(h *helloFields) { h.suites = u16(st.other) })
+			hello("s2c", true, func(h *c08Hello) { h.suites = u16(st.other) })
 		case "mitm-sh-suite-ecdhe":
-			hello("s2c", true, func(h *helloFields) { h.suites = u16(gmtls.GMTLS_ECDHE_SM4_CBC_SM3) })
+			hello("s2c", true, func(h *c08Hello) { h.suites = u16(gmtls.GMTLS_ECDHE_SM4_CBC_SM3) })
 		case "mitm-sh-compression":
-			hello("s2c", true, func(h *helloFields) { h.comps = []byte{1} })
+			hello("s2c", true, func(h *c08Hello) { h.comps = []byte{1} })
 		case "mitm-sh-ext-add":
 			hello("s2c", true, addExt)
 		case "mitm-cert-swap-sign", "mitm-cert-swap-enc", "mitm-cert-reorder", "mitm-cert-truncate", "mitm-cert-empty", "mitm-cert-append":
-			onMsg("s2c", hsCertificate, func(a *authMitm, msg hsm) []hsm {
-				certs, ok := parseCertMsg(msg.body)
+			onMsg("s2c", c08HsCertificate, func(a *c08MitmState, msg c08Msg) []c08Msg {
+				certs, ok := c08ParseCertMsg(msg.body)
 				if !ok || len(certs) < 2 {
-					return []hsm{msg}
+					return []c08Msg{msg}
 				}
 				switch attack {
 				case "mitm-cert-swap-sign":
@@ -808,75 +856,75 @@ func evalAuth(args []string) string {
 				case "mitm-cert-append":
 					certs = append(certs, m.ca.Raw)
 				}
-				return []hsm{{hsCertificate, certMsgBody(certs)}}
+				return []c08Msg{{c08HsCertificate, c08CertMsgBody(certs)}}
 			})
 		case "mitm-ske-flip":
-			onMsg("s2c", hsServerKeyExchange, func(a *authMitm, msg hsm) []hsm {
+			onMsg("s2c", c08HsServerKeyExchange, func(a *c08MitmState, msg c08Msg) []c08Msg {
 				if len(msg.body) <= 2 {
-					return []hsm{msg}
+					return []c08Msg{msg}
 				}
-				return []hsm{{msg.typ, append(append([]byte{}, msg.body[:2]...), flipAt(msg.body[2:], par(0), 1)...)}}
+				return []c08Msg{{msg.typ, append(append([]byte{}, msg.body[:2]...), c08FlipAt(msg.body[2:], par(0), 1)...)}}
 			})
 		case "mitm-ske-replay":
-			replay("s2c", hsServerKeyExchange)
+			replay("s2c", c08HsServerKeyExchange)
 		case "mitm-ske-drop":
-			onMsg("s2c", hsServerKeyExchange, func(a *authMitm, msg hsm) []hsm { return nil })
+			onMsg("s2c", c08HsServerKeyExchange, func(a *c08MitmState, msg c08Msg) []c08Msg { return nil })
 		case "mitm-cr-types":
-			onMsg("s2c", hsCertificateRequest, func(a *authMitm, msg hsm) []hsm {
+			onMsg("s2c", c08HsCertificateRequest, func(a *c08MitmState, msg c08Msg) []c08Msg {
 				b := append([]byte{}, msg.body...)
 				if len(b) > 1 {
 					b[1] ^= 0x40
 				}
-				return []hsm{{msg.typ, b}}
+				return []c08Msg{{msg.typ, b}}
 			})
 		case "mitm-cr-cas":
-			onMsg("s2c", hsCertificateRequest, func(a *authMitm, msg hsm) []hsm {
+			onMsg("s2c", c08HsCertificateRequest, func(a *c08MitmState, msg c08Msg) []c08Msg {
 				if len(msg.body) < 1 || len(msg.body) < 1+int(msg.body[0])+2 {
-					return []hsm{msg}
+					return []c08Msg{msg}
 				}
 				b := append([]byte{}, msg.body[:1+int(msg.body[0])]...)
-				return []hsm{{msg.typ, append(b, lenPrefixed16(lenPrefixed16(o.ca.RawSubject))...)}}
+				return []c08Msg{{msg.typ, append(b, c08LenPrefixed16(c08LenPrefixed16(o.ca.RawSubject))...)}}
 			})
 		case "mitm-cr-drop":
-			onMsg("s2c", hsCertificateRequest, func(a *authMitm, msg hsm) []hsm { return nil })
+			onMsg("s2c", c08HsCertificateRequest, func(a *c08MitmState, msg c08Msg) []c08Msg { return nil })
 		case "mitm-cr-insert":
-			onMsg("s2c", hsServerHelloDone, func(a *authMitm, msg hsm) []hsm {
-				if _, ok := a.find("s2c", hsCertificateRequest); ok {
-					return []hsm{msg}
+			onMsg("s2c", c08HsServerHelloDone, func(a *c08MitmState, msg c08Msg) []c08Msg {
+				if _, ok := a.find("s2c", c08HsCertificateRequest); ok {
+					return []c08Msg{msg}
 				}
-				return []hsm{{hsCertificateRequest, []byte{2, 1, 64, 0, 0}}, msg}
+				return []c08Msg{{c08HsCertificateRequest, []byte{2, 1, 64, 0, 0}}, msg}
 			})
 		case "mitm-ccert-swap":
-			onMsg("c2s", hsCertificate, func(a *authMitm, msg hsm) []hsm {
-				return []hsm{{msg.typ, certMsgBody(x.client2.Certificate)}}
+			onMsg("c2s", c08HsCertificate, func(a *c08MitmState, msg c08Msg) []c08Msg {
+				return []c08Msg{{msg.typ, c08CertMsgBody(x.client2.Certificate)}}
 			})
 		case "mitm-ccert-empty":
-			onMsg("c2s", hsCertificate, func(a *authMitm, msg hsm) []hsm { return []hsm{{msg.typ, certMsgBody(nil)}} })
+			onMsg("c2s", c08HsCertificate, func(a *c08MitmState, msg c08Msg) []c08Msg { return []c08Msg{{msg.typ, c08CertMsgBody(nil)}} })
 		case "mitm-cke-flip":
-			onMsg("c2s", hsClientKeyExchange, func(a *authMitm, msg hsm) []hsm {
+			onMsg("c2s", c08HsClientKeyExchange, func(a *c08MitmState, msg c08Msg) []c08Msg {
 				if len(msg.body) <= 2 {
-					return []hsm{msg}
+					return []c08Msg{msg}
 				}
-				return []hsm{{msg.typ, append(append([]byte{}, msg.body[:2]...), flipAt(msg.body[2:], par(0), 1)...)}}
+				return []c08Msg{{msg.typ, append(append([]byte{}, msg.body[:2]...), c08FlipAt(msg.body[2:], par(0), 1)...)}}
 			})
 		case "mitm-cke-replay":
-			replay("c2s", hsClientKeyExchange)
+			replay("c2s", c08HsClientKeyExchange)
 		case "mitm-cv-flip":
-			onMsg("c2s", hsCertificateVerify, func(a *authMitm, msg hsm) []hsm {
+			onMsg("c2s", c08HsCertificateVerify, func(a *c08MitmState, msg c08Msg) []c08Msg {
 				if len(msg.body) <= 2 {
-					return []hsm{msg}
+					return []c08Msg{msg}
 				}
-				return []hsm{{msg.typ, append(append([]byte{}, msg.body[:2]...), flipAt(msg.body[2:], par(0), 1)...)}}
+				return []c08Msg{{msg.typ, append(append([]byte{}, msg.body[:2]...), c08FlipAt(msg.body[2:], par(0), 1)...)}}
 			})
 		case "mitm-cv-replay":
-			replay("c2s", hsCertificateVerify)
+			replay("c2s", c08HsCertificateVerify)
 		case "mitm-cv-drop":
-			onMsg("c2s", hsCertificateVerify, func(a *authMitm, msg hsm) []hsm { return nil })
+			onMsg("c2s", c08HsCertificateVerify, func(a *c08MitmState, msg c08Msg) []c08Msg { return nil })
 		case "mitm-cfin-flip", "mitm-sfin-flip":
 			dir := map[string]string{"mitm-cfin-flip": "c2s", "mitm-sfin-flip": "s2c"}[attack]
 			am.encrw = func(d string, idx int, r record) []record {
 				if d == dir && idx == 0 {
-					return []record{{r.typ, r.vers, flipAt(r.body, par(0), 1)}}
+					return []record{{r.typ, r.vers, c08FlipAt(r.body, par(0), 1)}}
 				}
 				return []record{r}
 			}
@@ -887,15 +935,15 @@ func evalAuth(args []string) string {
 		// sweeps: mitm-flip <dir 0=c2s 1=s2c> <message index> <byte offset> <mask>; mitm-drop / mitm-dup <dir> <index>
 		case "mitm-flip", "mitm-drop", "mitm-dup":
 			dir := []string{"c2s", "s2c"}[par(0)&1]
-			if attack != "mitm-flip" { // the flip works on raw bytes without re-framing: see rawFlip below
-				am.rewrite = func(a *authMitm, d string, idx int, msg hsm) []hsm {
+			if attack != "mitm-flip" { // the flip works on raw bytes without re-framing: see c08RawFlip below
+				am.rewrite = func(a *c08MitmState, d string, idx int, msg c08Msg) []c08Msg {
 					if d != dir || idx != par(1) {
-						return []hsm{msg}
+						return []c08Msg{msg}
 					}
 					if attack == "mitm-drop" {
 						return nil
 					}
-					return []hsm{msg, msg}
+					return []c08Msg{msg, msg}
 				}
 			}
 		default:
@@ -909,8 +957,8 @@ func evalAuth(args []string) string {
 	}
 
 	if needCapture {
-		capture = newAuthMitm()
-		runAuth(st.ccfg, st.scfg, capture.f)
+		capture = c08NewMitm()
+		c08Run(st.ccfg, st.scfg, capture.f)
 	}
 
 	if pre != nil {
@@ -920,9 +968,9 @@ func evalAuth(args []string) string {
 	}
 	f := am.f
 	if attack == "mitm-flip" {
-		f = rawFlip(am, []string{"c2s", "s2c"}[par(0)&1], par(1), par(2), byte(par(3)))
+		f = c08RawFlip(am, []string{"c2s", "s2c"}[par(0)&1], par(1), par(2), byte(par(3)))
 	}
-	res, cStalled, sStalled := runAuth(st.ccfg, st.scfg, f)
+	res, cStalled, sStalled := c08Run(st.ccfg, st.scfg, f, evil)
 	_ = cStalled
 	_ = sStalled
 	if post != nil {
@@ -973,9 +1021,9 @@ func evalAuth(args []string) string {
 	return "abort"
 }
 
-// rawFlip alters one byte of the idx-th plaintext handshake message of one direction in place (header bytes
+// c08RawFlip alters one byte of the idx-th plaintext handshake message of one direction in place (header bytes
 // included), leaving the record framing alone.
-func rawFlip(a *authMitm, dir string, idx, off int, mask byte) mitmFunc {
+func c08RawFlip(a *c08MitmState, dir string, idx, off int, mask byte) mitmFunc {
 	return func(d string, n int, r record) ([]record, bool) {
 		a.mu.Lock()
 		defer a.mu.Unlock()
@@ -986,7 +1034,7 @@ func rawFlip(a *authMitm, dir string, idx, off int, mask byte) mitmFunc {
 		if a.ccs[d] || r.typ != recHandshake {
 			return []record{r}, false
 		}
-		ms, ok := parseHS(r.body)
+		ms, ok := c08ParseHS(r.body)
 		if !ok {
 			return []record{r}, false
 		}
@@ -997,7 +1045,7 @@ func rawFlip(a *authMitm, dir string, idx, off int, mask byte) mitmFunc {
 			a.n[d]++
 			l := 4 + len(m.body)
 			if d == dir && k == idx {
-				copy(body[pos:pos+l], flipAt(body[pos:pos+l], off, mask))
+				copy(body[pos:pos+l], c08FlipAt(body[pos:pos+l], off, mask))
 				a.changed, a.plain = true, true
 			}
 			pos += l
@@ -1006,7 +1054,7 @@ func rawFlip(a *authMitm, dir string, idx, off int, mask byte) mitmFunc {
 	}
 }
 
-func sameDERs(a []*x509.Certificate, b [][]byte) bool {
+func c08SameDERs(a []*x509.Certificate, b [][]byte) bool {
 	if len(a) != len(b) {
 		return false
 	}
@@ -1019,7 +1067,7 @@ func sameDERs(a []*x509.Certificate, b [][]byte) bool {
 }
 
 // both ends completed: they must agree on what was negotiated and on who the peer is
-func c08Views(st *authSetup, res *pairResult, m *gmPKI) string {
+func c08Views(st *c08Setup, res *pairResult, m *gmPKI) string {
 	c, s := res.c.state, res.s.state
 	switch {
 	case c.Version != s.Version:
@@ -1028,11 +1076,11 @@ func c08Views(st *authSetup, res *pairResult, m *gmPKI) string {
 		return "suite"
 	case len(res.c.ekm) == 0 || !bytes.Equal(res.c.ekm, res.s.ekm):
 		return "keying-material"
-	case !sameDERs(c.PeerCertificates, st.serverCerts):
+	case !c08SameDERs(c.PeerCertificates, st.serverCerts):
 		return "server-certificates"
 	}
 	requested := st.scfg.ClientAuth != gmtls.NoClientCert
-	if requested && !sameDERs(s.PeerCertificates, st.sentClient) {
+	if requested && !c08SameDERs(s.PeerCertificates, st.sentClient) {
 		return "client-certificates"
 	}
 	if !requested && len(s.PeerCertificates) != 0 {
@@ -1047,7 +1095,7 @@ func c08Views(st *authSetup, res *pairResult, m *gmPKI) string {
 }
 
 // the client completed with verification enabled: the connection state must show a chain to its root
-func c08ClientAuthenticated(st *authSetup, res *pairResult, m *gmPKI) string {
+func c08ClientAuthenticated(st *c08Setup, res *pairResult, m *gmPKI) string {
 	if st.ccfg.InsecureSkipVerify {
 		return ""
 	}
@@ -1067,11 +1115,12 @@ var c08ServerAttacks = []string{"s-signkey-wrong", "s-enckey-wrong", "s-untruste
 	"s-expired-sign", "s-expired-enc", "s-notyet-sign", "s-notyet-enc", "s-wrongname-sign", "s-wrongname-enc",
 	"s-rsa-sign", "s-rsa-enc", "s-p256-sign", "s-p256-enc", "s-swapped", "s-noku-sign", "s-noku-enc", "s-kusign-enc", "s-kuenc-sign", "s-dual",
 	"ske-otherrandoms", "ske-otherclientrandom", "ske-otherserverrandom", "ske-swaprandoms", "ske-othercert", "ske-nolen",
-	"ske-by-enckey", "ske-by-otherkey", "ske-empty", "ske-replay", "cke-forge"}
+	"ske-by-enckey", "ske-by-otherkey", "ske-empty", "ske-replay", "cke-forge",
+	"s-ske-omitted", "s-fin-firstbyte", "s-fin-first11", "s-fin-lastbit", "c-fin-firstbyte", "c-fin-first11", "c-fin-lastbit"}
 
 var c08ClientAttacks = []string{"cv-replay", "cv-otherdigest", "cv-empty"}
 
-var c08Mitm = []string{"mitm-ch-version", "mitm-ch-version-low", "mitm-ch-random", "mitm-ch-sessionid", "mitm-ch-suites-other",
+var c08MitmAttacks = []string{"mitm-ch-version", "mitm-ch-version-low", "mitm-ch-random", "mitm-ch-sessionid", "mitm-ch-suites-other",
 	"mitm-ch-suites-reorder", "mitm-ch-suites-append", "mitm-ch-compression", "mitm-ch-compression-only", "mitm-ch-ext-strip",
 	"mitm-ch-ext-sni", "mitm-ch-ext-add", "mitm-sh-version", "mitm-sh-version-low", "mitm-sh-random", "mitm-sh-sessionid",
 	"mitm-sh-suite", "mitm-sh-suite-ecdhe", "mitm-sh-compression", "mitm-sh-ext-add", "mitm-cert-swap-sign", "mitm-cert-swap-enc",
@@ -1080,7 +1129,7 @@ var c08Mitm = []string{"mitm-ch-version", "mitm-ch-version-low", "mitm-ch-random
 	"mitm-cke-flip", "mitm-cke-replay", "mitm-cv-flip", "mitm-cv-replay", "mitm-cv-drop", "mitm-cfin-flip", "mitm-sfin-flip",
 	"mitm-cccs-drop", "mitm-sccs-drop"}
 
-func genC08(r *rng, tier string, emit func(string)) {
+func c08Gen(r *rng, tier string, emit func(string)) {
 	suites := []string{"e013", "e053"}
 	policies := []string{"none", "request", "requireany", "verifyifgiven", "requireverify"}
 	ccerts := []string{"absent", "trusted", "untrusted", "expired", "notyet", "wrongeku", "wrongkey"}
@@ -1116,7 +1165,7 @@ func genC08(r *rng, tier string, emit func(string)) {
 			op(su, "request", a, "absent", 0)
 		}
 		// single-field rewrites in transit
-		for _, a := range c08Mitm {
+		for _, a := range c08MitmAttacks {
 			op(su, "requireverify", a, "trusted", 0, r.intn(64))
 			op(su, "none", a, "absent", 0, r.intn(64))
 			op(su, policies[1+r.intn(4)], a, ccerts[r.intn(len(ccerts))], r.intn(2), r.intn(64))
@@ -1150,7 +1199,7 @@ func genC08(r *rng, tier string, emit func(string)) {
 		if tier == "thorough" {
 			for _, pol := range policies {
 				for _, cc := range ccerts {
-					for _, a := range c08Mitm {
+					for _, a := range c08MitmAttacks {
 						op(su, pol, a, cc, r.intn(2), r.intn(256))
 					}
 					for _, a := range c08ServerAttacks {
@@ -1172,8 +1221,8 @@ func c08MessageLengths(suite string) [2][]int {
 	ccfg, scfg := gmClientCfg(m), gmServerCfg(m)
 	scfg.ClientAuth, scfg.ClientCAs = gmtls.RequireAndVerifyClientCert, m.pool
 	ccfg.Certificates = []gmtls.Certificate{m.client}
-	a := newAuthMitm()
-	runAuth(ccfg, scfg, a.f)
+	a := c08NewMitm()
+	c08Run(ccfg, scfg, a.f)
 	var out [2][]int
 	for i, d := range []string{"c2s", "s2c"} {
 		for _, msg := range a.msgs[d] {
